@@ -1,4 +1,5 @@
 import AcraModel.Typed.Describe
+import AcraModel.Typed.Kinds
 /-! Driver ops for C19 (typed columns). -/
 namespace Driver.C19
 open AcraModel AcraModel.Typed
@@ -34,8 +35,70 @@ def mkRaw (t onFail dflt utf8 b64 : String) : Option RawSetting := do
   let b ← parseOptBytes b64
   pure ⟨t, p, d, u, b⟩
 
+def parseKind : String → Option Kind
+  | "plain" => some .plain | "searchable" => some .searchable
+  | "masked" => some .masked | "tokenized" => some .tokenized
+  | _ => none
+
+/-- `<kind> <typeById> <tokenAndType> <acrastruct> <reencrypt>` + the five tokens of `mkRaw` -/
+def mkColumn (kind byId tokAndType acrastruct reenc t onFail dflt utf8 b64 : String) : Option RawColumn := do
+  let k ← parseKind kind
+  let i ← parseBool byId
+  let ta ← parseBool tokAndType
+  let a ← parseBool acrastruct
+  let re ← parseBool reenc
+  let raw ← mkRaw t onFail dflt utf8 b64
+  pure ⟨raw, k, i, ta, a, re⟩
+
+def showPolicy : Policy → String
+  | .ciphertext => "ciphertext" | .defaultValue => "default_value" | .error => "error"
+
+/-- the OID the harness uses for "what the database / the client said" in the description ops -/
+def probeOid : Nat := 17
+
 def handle (op : String) (args : List String) : Option String :=
   match op, args with
+  -- configuration of a column of any kind: accepted?, policy, type aware?, binary operation?, and the descriptions
+  -- (PostgreSQL: RowDescription / ParameterDescription OID for a bytea column, Parse OID for a parameter the client
+  -- declared as `clientOid`; MySQL: column type for a VAR_STRING column)
+  | "column.pg", [kind, byId, ta, a, re, t, onFail, dflt, utf8, b64, clientOid] => do
+      let rc ← mkColumn kind byId ta a re t onFail dflt utf8 b64
+      let clientOid ← clientOid.toNat?
+      pure (match initColumn rc with
+        | none => "err"
+        | some c => s!"ok {showPolicy c.setting.policy} aware={hasTypeAwareSupport c} binop={c.setting.binaryOp} row={pgRowOid c probeOid} param={pgParamOid c probeOid} parse={pgParseOid c clientOid}")
+  | "column.my", [kind, byId, ta, a, re, t, onFail, dflt, utf8, b64, dbType] => do
+      let rc ← mkColumn kind byId ta a re t onFail dflt utf8 b64
+      let dbType ← dbType.toNat?
+      pure (match initColumn rc with
+        | none => "err"
+        | some c => s!"ok {showPolicy c.setting.policy} binop={c.setting.binaryOp} type={myColumnType c dbType false}")
+  -- decoder → reveal → encoder for a column of any kind (default envelope, type written as data_type / token_type)
+  | "pg.readk", [kind, t, onFail, dflt, utf8, b64, fmt, reveal, wire] => do
+      let rc ← mkColumn kind "false" "false" "false" "true" t onFail dflt utf8 b64
+      let binary ← (if fmt = "binary" then some true else if fmt = "text" then some false else none)
+      let reveal ← parseOptBytes reveal
+      let wire ← ofHex wire
+      match initColumn rc with
+      | none => pure "badsetting"
+      | some c => pure (showRes (pgTypedRead c.setting binary ⟨rc.raw.defaultB64⟩ (fun _ => reveal) wire))
+  | "my.readk", [kind, t, onFail, dflt, utf8, b64, fmt, origType, reveal, wire] => do
+      let rc ← mkColumn kind "false" "false" "false" "true" t onFail dflt utf8 b64
+      let binary ← (if fmt = "binary" then some true else if fmt = "text" then some false else none)
+      let origType ← origType.toNat?
+      let reveal ← parseOptBytes reveal
+      let wire ← ofHex wire
+      match initColumn rc with
+      | none => pure "badsetting"
+      | some c =>
+        let s := c.setting
+        let (colType, originType) := match s.dataType with
+          | some dt => (myTypeCode dt, origType)
+          | none => (origType, 0)
+        let r := myTypedRead s binary colType originType ⟨rc.raw.defaultB64⟩ (fun _ => reveal) wire
+        pure (match myDeliveredType s origType r with
+          | some d => s!"{showRes r} {d}"
+          | none => showRes r)
   | "parseint", [bits, s] => do
       let bits ← bits.toNat?
       let s ← ofHex s
